@@ -300,6 +300,9 @@ func RunCase(c *corr.Ctx, sc *StreamCase) {
 				viol(c, sc, "reading arbitrary bytes never panics", "b64-panic", pan)
 			}
 			line := hx(out) + " " + end
+			if pi == 0 {
+				c.Dist("b64-end-" + end)
+			}
 			add("frame b64 "+sizesArg(reads), line)
 			if pi == 0 {
 				first = line
@@ -317,6 +320,10 @@ func RunCase(c *corr.Ctx, sc *StreamCase) {
 				viol(c, sc, "reading arbitrary bytes never panics", "conn-panic", res.panic)
 			}
 			line := fmtResult(res.elems, res.end)
+			if pi == 0 {
+				c.Dist(fmt.Sprintf("%s-end-%s", sc.Carrier, res.end))
+				c.Dist(fmt.Sprintf("%s-elements-%s", sc.Carrier, bucket(len(res.elems))))
+			}
 			switch {
 			case sc.Carrier == "tunnel":
 				add("frame tunnel "+sizesArg(res.reads), line)
@@ -355,6 +362,18 @@ func RunCase(c *corr.Ctx, sc *StreamCase) {
 	} else {
 		c.Add(cs)
 	}
+}
+
+func bucket(n int) string {
+	switch {
+	case n == 0:
+		return "0"
+	case n == 1:
+		return "1"
+	case n <= 3:
+		return "2-3"
+	}
+	return "4+"
 }
 
 func trunc(s string) string {
